@@ -15,7 +15,7 @@ import (
 // Batch the executor waits for exactly the bytes the ledger allows, then proves
 // with three PING round trips that nothing else arrives.
 type fop struct {
-	K     string `json:"k"` // open | grant | iw | iwoverflow | mfs | rst | cancel | overflow | drain
+	K     string `json:"k"`           // open | grant | iw | iwoverflow | mfs | rst | cancel | overflow | drain
 	S     int    `json:"s,omitempty"` // script stream (1-based), 0 = connection
 	N     int64  `json:"n,omitempty"`
 	Batch bool   `json:"batch,omitempty"`
@@ -27,15 +27,15 @@ type fop struct {
 }
 
 type fscript struct {
-	Family  string `json:"family"`
-	Rig     string `json:"rig"`
-	Index   int    `json:"index"`
-	Profile string `json:"profile,omitempty"`
-	IW0     int64  `json:"iw0"`
-	MFS0    int64  `json:"mfs0"`
-	Sched   string `json:"sched,omitempty"`
-	KeyBase uint64 `json:"key_base"`
-	Ops     []fop  `json:"ops"`
+	Family  string       `json:"family"`
+	Rig     string       `json:"rig"`
+	Index   int          `json:"index"`
+	Profile string       `json:"profile,omitempty"`
+	IW0     int64        `json:"iw0"`
+	MFS0    int64        `json:"mfs0"`
+	Sched   string       `json:"sched,omitempty"`
+	KeyBase uint64       `json:"key_base"`
+	Ops     []fop        `json:"ops"`
 	Storm   *stormParams `json:"storm,omitempty"`
 }
 
@@ -47,14 +47,14 @@ type finding struct {
 }
 
 type fstream struct {
-	idx    int
-	sid    uint32
-	total  int64
-	abort  bool
-	dead   bool
-	acked  bool // T: response sent
-	pl     *plan
-	rq     *treq
+	idx   int
+	sid   uint32
+	total int64
+	abort bool
+	dead  bool
+	acked bool // T: response sent
+	pl    *plan
+	rq    *treq
 }
 
 type fexec struct {
